@@ -56,7 +56,7 @@ CLAIMED = {
         text=("Machine-checked proof, for a run of the regenerated optimize() schema and every optimizer/history/configuration: best_solution "
               "is the sign-restored copy of a member of the last recorded generation and no member of it is strictly better in the task's "
               "direction — for every final population (any size >= 1, order, ties; hence any pool completion order), both directions "
-              "(regenerated sign restoration of Population/OptimizationResult, xneg reverses the order). Tie: schema regeneration + bridges; "
+              "(regenerated sign restoration of Population/OptimizationResult, xneg reverses the order); a concrete run (ties, changing order, max) is proved to meet every hypothesis. Tie: schema regeneration + bridges; "
               "scripted histories with ties/plateaus through the real optimize(); all 84 real optimizers in both directions."),
         note=TB + " Costs of the final generation are not NaN.",
         technique="Coq proof over the regenerated schema + sort/selection theorems; scripted vm_compute correspondence; search over real optimizers",
